@@ -276,13 +276,13 @@ def same_code_tok(a, b):
 # the cases that run into the defect (they are replayable: docs/C18_replay_*.json show VIOLATION on the unpatched
 # tree).  Set a switch to True once the patch is committed; nothing else has to change (the Coq model already
 # follows the patched code on these paths, see coq/C18/LinepartModel.v merge and coq/C18/PolylineModel.v).
-PATCHED_SET_STALE = False            # docs/C18_set_stale_cut_trim.diff   linepart::array::set keeps old _cut/_trim: frames >= 2
-PATCHED_MERGE_CUT_TRIM = False       # docs/C18_merge_cut_trim.diff       apply() of a further dimension onto parts of a dimension that has a range
-PATCHED_SHORT_DIMENSION = False      # docs/C18_short_dimension.diff      (on top of merge_cut_trim) a later dimension with fewer values
-PATCHED_SKIP_STORE = False           # docs/C18_polyline_skip_store.diff  polyline::set: a store without doubles behind the first and before a usable one
-PATCHED_NO_FIRST_STORE = False       # docs/C18_polyline_no_first_store.diff  polyline::set on a USED polyline (frames >= 2) whose first store has no doubles
-PATCHED_APPLY_DATA_NOPARTS = False   # docs/C18_apply_data_noparts.diff   apply_data without parts: several dimensions and > 65535 points or unequal lengths
-PATCHED_APPLY_SHORT_PART = False     # docs/C18_apply_short_part.diff     (mptplot/values.h) a part with raw = 1 that draws 2 points: its points are
+PATCHED_SET_STALE = True            # docs/C18_set_stale_cut_trim.diff   linepart::array::set keeps old _cut/_trim: frames >= 2
+PATCHED_MERGE_CUT_TRIM = True       # docs/C18_merge_cut_trim.diff       apply() of a further dimension onto parts of a dimension that has a range
+PATCHED_SHORT_DIMENSION = True      # docs/C18_short_dimension.diff      (on top of merge_cut_trim) a later dimension with fewer values
+PATCHED_SKIP_STORE = True           # docs/C18_polyline_skip_store.diff  polyline::set: a store without doubles behind the first and before a usable one
+PATCHED_NO_FIRST_STORE = True       # docs/C18_polyline_no_first_store.diff  polyline::set on a USED polyline (frames >= 2) whose first store has no doubles
+PATCHED_APPLY_DATA_NOPARTS = True   # docs/C18_apply_data_noparts.diff   apply_data without parts: several dimensions and > 65535 points or unequal lengths
+PATCHED_APPLY_SHORT_PART = True     # docs/C18_apply_short_part.diff     (mptplot/values.h) a part with raw = 1 that draws 2 points: its points are
                                      #                                    not compared in GENERATED cases while False (always compared in replays)
 STRICT = False                       # set while a replay file is run: no masking at all
 
